@@ -132,6 +132,7 @@ type cnode struct {
 	stop   chan struct{} // closed when the instance is shut down
 
 	faults *faults // shared by the peers of a world (suite fault)
+	gater  *blockGater
 }
 
 type cworld struct {
@@ -182,6 +183,7 @@ func (w *cworld) raftCfg(n *cnode, init []int) *raft.Config {
 	cfg.RaftConfig.LeaderLeaseTimeout = 500 * time.Millisecond
 	cfg.RaftConfig.CommitTimeout = 50 * time.Millisecond
 	if w.fast {
+		cfg.WaitForLeaderTimeout = 8 * time.Second
 		cfg.RaftConfig.HeartbeatTimeout = 400 * time.Millisecond
 		cfg.RaftConfig.ElectionTimeout = 400 * time.Millisecond
 		cfg.RaftConfig.LeaderLeaseTimeout = 300 * time.Millisecond
@@ -208,7 +210,9 @@ func (w *cworld) ensureHost(n *cnode) error {
 	if n.h != nil {
 		return nil
 	}
-	h, err := libp2p.New(context.Background(), libp2p.Identity(n.priv), libp2p.ListenAddrStrings("/ip4/127.0.0.1/tcp/0"))
+	n.gater = &blockGater{}
+	h, err := libp2p.New(context.Background(), libp2p.Identity(n.priv), libp2p.ListenAddrStrings("/ip4/127.0.0.1/tcp/0"),
+		libp2p.ConnectionGater(n.gater))
 	if err != nil {
 		return err
 	}
